@@ -159,7 +159,7 @@ pub fn scenarios(prop: &str, thorough: bool) -> Vec<Scenario> {
         }
         "C06" | "C19" => {
             v.extend(held_family(thorough));
-            v.extend(scenarios("C07", thorough).into_iter().filter(|s| s.name.starts_with("Big/") || s.name.starts_with("MC/")));
+            v.extend(scenarios("C07", thorough).into_iter().filter(|s| s.name.starts_with("Big/") || s.name.starts_with("MC/") || s.name.starts_with("E/") || s.name.starts_with("EE/")));
             v.extend(scenarios("C12", thorough).into_iter().filter(|s| s.name.starts_with("RE/")));
             // small scripts, explored with a higher preemption bound
             for pool in [1usize, 2] {
@@ -910,6 +910,20 @@ fn outcome_signature(obs: &[Obs], outcome: &Outcome) -> String {
     s
 }
 
+fn static_prop(p: &str) -> &'static str {
+    match p {
+        "C06" => "C06",
+        "C07" => "C07",
+        "C09" => "C09",
+        "C11" => "C11",
+        "C12" => "C12",
+        "C13" => "C13",
+        "C19" => "C19",
+        "C20" => "C20",
+        _ => "C06",
+    }
+}
+
 fn explore_scenario(prop: &str, scn: &Scenario, bound: u32, cap: u64, shard: usize, nshards: usize, acc: &mut ChildAcc) -> bool {
     let mut stop = false;
     let (ex, pts, capped) = explore(
@@ -960,6 +974,14 @@ fn explore_scenario(prop: &str, scn: &Scenario, bound: u32, cap: u64, shard: usi
                                          "events": rr.trace.log.iter().take(60).map(|e| format!("t{} T{} {} {}", e.t, e.tid, e.what, e.data)).collect::<Vec<_>>()}));
             }
             let mut deadlock = false;
+            // a library call that panics inside a history the checked property quantifies over
+            // does not deliver what the property promises for that history: attributed to it as well
+            let extra: Vec<Viol> = viols
+                .iter()
+                .filter(|x| x.prop == "C06" && prop != "C06" && x.sig.starts_with("C06/library_call_panicked"))
+                .map(|x| Viol { prop: static_prop(prop), sig: x.sig.replacen("C06/", &format!("{prop}/"), 1), what: x.what.clone() })
+                .collect();
+            viols.extend(extra);
             for vl in viols {
                 if vl.prop == prop {
                     let e = acc.viols.entry(vl.sig.clone()).or_insert((0, vl.what.clone(), Vec::new()));
